@@ -17,7 +17,7 @@ func checkC28(p *Prog, r *Result, tier string) {
 	r.Explanation = "CL1 every redis site that turns a keyspace action into a gone/alive or delete decision treats `del` and `expired` alike (both constants occur in the same boolean chain or case list with the same operator); CL2 the etcd node-status stream reports not-alive exactly for delete events; both streams send one status per event; " +
 		"M1 dealNodeStatusMessage reaches cluster.SetNode{Nodename: message.Nodename, WorkloadsDown: true} on every path except the two early returns for an errored message and for an alive message; M2 monitor starts the initial sweep, concurrently with (or after) opening the node status stream so that no lapse falls between the two, and handles every message of the stream with dealNodeStatusMessage; " +
 		"M3 the initial sweep lists all nodes (All: true), turns a failed status lookup into a not-alive status and hands every node's status to dealNodeStatusMessage; " +
-		"W1 SetNode calls the workload sweep under `opts.WorkloadsDown`; W2 in the sweep every SetWorkloadStatus is dominated by the assignments Running=false and Healthy=false on the same status object, with TTL 0 (never expires on its own)."
+		"W1 SetNode calls the workload sweep under `opts.WorkloadsDown`; W2 in the sweep every SetWorkloadStatus is dominated by the assignments Running=false and Healthy=false on the same status object, with TTL 0 (never expires on its own); W3 the sweep loop has no continue/break/return other than the branch for a workload name that cannot be parsed, so every workload of the node gets that write."
 	r.NotCovered = "'eventually' (timing, pool saturation); workloads whose name does not parse are skipped (logged); that a watcher is active at all (C26)"
 	r.Assumptions = []string{"A3", "redis keyspace notifications deliver `del` for DEL and `expired` for TTL expiry"}
 	r.min("CL1", 3)
@@ -482,4 +482,75 @@ func checkC28(p *Prog, r *Result, tier string) {
 		}
 	}
 	r.check2(w2, "W2", SW.Name+" / every workload of the node is written as not running and not healthy", p.pos(SW.Decl), "Running=false, Healthy=false dominate SetWorkloadStatus(ctx, status, 0)")
+	// W3: no workload of the node is skipped: inside the sweep loop the only way round SetWorkloadStatus is the branch that
+	// handles a workload name that cannot be parsed
+	{
+		w3, n := "", 0
+		SW.inspectBody(func(x ast.Node) bool {
+			rs, ok := x.(*ast.RangeStmt)
+			if !ok {
+				return true
+			}
+			hasSet := false
+			ast.Inspect(rs.Body, func(y ast.Node) bool {
+				if c, ok := y.(*ast.CallExpr); ok && SW.Callee(c) != nil && objName(SW.Callee(c)) == "store.Store.SetWorkloadStatus" {
+					hasSet = true
+				}
+				return true
+			})
+			if !hasSet {
+				return true
+			}
+			n++
+			var stack []ast.Node
+			ast.Inspect(rs.Body, func(y ast.Node) bool {
+				if y == nil {
+					stack = stack[:len(stack)-1]
+					return false
+				}
+				stack = append(stack, y)
+				skip := false
+				switch z := y.(type) {
+				case *ast.BranchStmt:
+					skip = z.Tok == token.CONTINUE || z.Tok == token.BREAK || z.Tok == token.GOTO
+				case *ast.ReturnStmt:
+					skip = true
+				case *ast.FuncLit:
+					return false
+				}
+				if !skip {
+					return true
+				}
+				// allowed: directly inside `if err != nil { … }` where err comes from ParseWorkloadName
+				okSkip := false
+				for i := len(stack) - 1; i >= 0; i-- {
+					if is, ok := stack[i].(*ast.IfStmt); ok {
+						c := exprStr(is.Cond)
+						if c == "err != nil" {
+							// the err tested is the parse error: the previous statement in the loop body assigns it from ParseWorkloadName
+							for j, st := range rs.Body.List {
+								if st == ast.Stmt(is) && j > 0 {
+									if as, ok := rs.Body.List[j-1].(*ast.AssignStmt); ok && len(as.Rhs) == 1 && strings.Contains(exprStr(as.Rhs[0]), "ParseWorkloadName") {
+										okSkip = true
+									}
+								}
+							}
+						}
+						break
+					}
+				}
+				if !okSkip {
+					w3 = "the sweep leaves the loop body at " + p.pos(y) + " before SetWorkloadStatus for a workload whose name parses: a workload of the failed node keeps whatever status it had (e.g. running but unhealthy stays `running`)"
+				}
+				return true
+			})
+			return true
+		})
+		if n == 0 {
+			r.undecided("W3", SW.Name+" / sweep loop", p.pos(SW.Decl), "no loop with SetWorkloadStatus found")
+		} else {
+			r.min("W3", 1)
+			r.check2(w3, "W3", SW.Name+" / no workload of the node is skipped by the sweep", p.pos(SW.Decl), "the only continue/return in the sweep loop is the unparsable-name branch")
+		}
+	}
 }
